@@ -121,6 +121,7 @@ type VC struct {
 	compType   map[string]types.Type // component -> Go type of the stored value
 	epochTop   map[int]string        // epoch -> allocTop when it started
 	siteHits   map[*SiteSpec]int
+	srcOrd     map[*ssa.CallCommon]int // ordinal of a static call among the calls of the same callee, in source order
 	defined    map[string]bool // names introduced by define-fun (macros, not constants)
 }
 
